@@ -526,6 +526,30 @@ func genRecvCases(g *Gen, kind uint64, n int, directedRelink bool) {
 				}
 			}
 		}
+		if r.Chance(5) {
+			// directed: a hard-link entry announced with other metadata than the entry it names (a
+			// dishonest sender, or a MapFunc that treats the names of one inode differently): the
+			// new name shows the metadata of the inode it joins (os.Link, no rewriteMetadata), the
+			// notification still carries the stat as sent (model: AbsDest.link_stat)
+			for _, e := range Bl {
+				if os.FileMode(e.St.Mode)&os.ModeType == 0 && e.St.Linkname != "" {
+					switch r.Intn(4) {
+					case 0:
+						e.St.Mode ^= uint32(1 << uint(r.Intn(9)))
+					case 1:
+						e.St.Uid += uint32(1 + r.Intn(3))
+					case 2:
+						e.St.Gid += uint32(1 + r.Intn(3))
+					case 3:
+						e.St.ModTime += int64(1+r.Intn(5)) * 1e9
+					}
+					cls = "directed-link-meta-differs"
+					if r.Bool() {
+						break
+					}
+				}
+			}
+		}
 		if r.Chance(3) {
 			// directed: a hard-link entry naming a missing path or a directory: os.Link fails,
 			// HandleChange returns an error (model: apply_map = None)
@@ -572,6 +596,203 @@ func genRecvCases(g *Gen, kind uint64, n int, directedRelink bool) {
 	}
 }
 
+// c05EmitCase runs one explicit case and emits it (same nontriviality rule as genRecvCases).
+func c05EmitCase(g *Gen, kind uint64, differ, mode int, order uint64, A, Bl []flatEntry, cls string) bool {
+	fixSizes(A)
+	fixSizes(Bl)
+	in := L(NI(differ), NI(mode), N(order), entriesSx(A), entriesSx(Bl))
+	out := runRecvAbs(in)
+	if len(out.L) == 2 && out.L[0].Kind == 'n' && out.L[0].U64() == 0xfffe {
+		return false
+	}
+	nontriv := false
+	if len(out.L) == 5 {
+		nn := len(out.L[2].L)
+		nontriv = nn >= 1 && len(out.L[3].L) > nn
+	}
+	g.EmitWith(kind, in, out, nontriv, cls)
+	return true
+}
+
+// c05DirReplaced: directed histories "a directory WITH CHILDREN is replaced by a non-directory
+// of every type": symbolic link to a sibling directory that holds the same child names (a
+// delete of a child issued after the replacement would go THROUGH the link and hit the
+// sibling), fifo, character and block device, regular file, hard link.  The specification
+// asks for ONE notification at the directory's path and none below it (the writer removes the
+// old subtree with the directory); replay of the events must give the snapshot, the sibling
+// untouched.
+func c05DirReplaced(g *Gen) {
+	r := g.Rng
+	file := func(p string, content string, mt int64) flatEntry {
+		return flatEntry{&types.Stat{Path: p, Mode: 0644, ModTime: mt * 1e9}, []byte(content)}
+	}
+	dir := func(p string, perm uint32) flatEntry {
+		return flatEntry{&types.Stat{Path: p, Mode: uint32(os.ModeDir) | perm, ModTime: 1700000000e9}, nil}
+	}
+	type repl struct {
+		cls string
+		mk  func(p, sibling string) flatEntry
+	}
+	repls := []repl{
+		{"symlink", func(p, sib string) flatEntry {
+			return flatEntry{&types.Stat{Path: p, Mode: uint32(os.ModeSymlink | 0777), Linkname: sib, ModTime: 1600000005e9}, nil}
+		}},
+		{"fifo", func(p, sib string) flatEntry {
+			return flatEntry{&types.Stat{Path: p, Mode: uint32(os.ModeNamedPipe | 0644), ModTime: 1600000005e9}, nil}
+		}},
+		{"chardev", func(p, sib string) flatEntry {
+			return flatEntry{&types.Stat{Path: p, Mode: uint32(os.ModeDevice|os.ModeCharDevice) | 0600, Devmajor: 1, Devminor: 3, ModTime: 1600000005e9}, nil}
+		}},
+		{"blockdev", func(p, sib string) flatEntry {
+			return flatEntry{&types.Stat{Path: p, Mode: uint32(os.ModeDevice) | 0600, Devmajor: 7, Devminor: 1, ModTime: 1600000005e9}, nil}
+		}},
+		{"file", func(p, sib string) flatEntry {
+			return flatEntry{&types.Stat{Path: p, Mode: 0600, ModTime: 1600000005e9}, []byte("new")}
+		}},
+		{"hardlink", func(p, sib string) flatEntry {
+			// a new name of the sibling's first child (listed before p: the sibling sorts first)
+			return flatEntry{&types.Stat{Path: p, Mode: 0644, Linkname: sib + "/x", ModTime: 1600000001e9}, []byte("sx")}
+		}},
+	}
+	// the replaced directory d and its sibling s hold the same child names; s sorts before d in
+	// one shape and after it in the other
+	shapes := []struct{ d, s string }{{"d", "b"}, {"d", "e"}, {"a/d", "a/b"}, {"a/d", "a/e"}}
+	n := 0
+	for _, sh := range shapes {
+		for _, rp := range repls {
+			if rp.cls == "hardlink" && fsutil.ComparePath(sh.s, sh.d) > 0 {
+				continue // a hard link must name an earlier entry
+			}
+			for deep := 0; deep < 2; deep++ {
+				var A, Bl []flatEntry
+				add := func(both bool, e flatEntry) {
+					A = append(A, flatEntry{e.St.CloneVT(), e.Content})
+					if both {
+						Bl = append(Bl, flatEntry{e.St.CloneVT(), e.Content})
+					}
+				}
+				tree := func(root string, both bool, tag string) {
+					add(both, dir(root, 0755))
+					if deep == 1 {
+						add(both, dir(root+"/sub", 0700))
+						add(both, file(root+"/sub/z", tag+"z", 1600000003))
+					}
+					add(both, file(root+"/x", tag+"x", 1600000001))
+					add(both, file(root+"/y", tag+"y", 1600000002))
+				}
+				if strings.HasPrefix(sh.d, "a/") {
+					add(true, dir("a", 0755))
+				}
+				first, second := sh.s, sh.d
+				if fsutil.ComparePath(sh.s, sh.d) > 0 {
+					first, second = sh.d, sh.s
+				}
+				for _, root := range []string{first, second} {
+					if root == sh.d {
+						tree(root, false, "d")
+						Bl = append(Bl, rp.mk(sh.d, filepath.Base(sh.s)))
+						if rp.cls == "hardlink" {
+							Bl[len(Bl)-1] = rp.mk(sh.d, sh.s)
+						}
+					} else {
+						tree(root, true, "s")
+					}
+				}
+				add(true, file("zz", "keep", 1600000009))
+				sort.SliceStable(A, func(i, j int) bool { return fsutil.ComparePath(A[i].St.Path, A[j].St.Path) < 0 })
+				sort.SliceStable(Bl, func(i, j int) bool { return fsutil.ComparePath(Bl[i].St.Path, Bl[j].St.Path) < 0 })
+				orders := []uint64{0, 1 + uint64(r.Intn(1000))}
+				for _, order := range orders {
+					if c05EmitCase(g, 0x0501, 0, 0, order, A, Bl, "directed-dir-with-children-replaced-by-"+rp.cls) {
+						n++
+					}
+				}
+			}
+		}
+	}
+	g.Note("directed_dir_replaced_cases", n)
+}
+
+// c05LinkMeta: directed histories around ONE hard-link pair t <- u (plus a second link v): the
+// target is unchanged / touched / new, the link is new / already a link / a file of its own in
+// the old destination, and the link entry is announced honestly or with ONE metadata field
+// differing from its target (mode, uid, gid, mtime).  What the destination must show for u is
+// the metadata of the inode it joins (the target's, as it is when u is linked), whatever was
+// announced; the notification carries the stat as sent.
+func c05LinkMeta(g *Gen, kind uint64) {
+	r := g.Rng
+	n := 0
+	for tgt := 0; tgt < 3; tgt++ { // 0 unchanged, 1 touched (re-created), 2 absent from A
+		for old := 0; old < 3; old++ { // 0 absent, 1 link to t, 2 file of its own
+			if tgt == 2 && old == 1 {
+				continue
+			}
+			for field := 0; field < 5; field++ { // 0 honest
+				t := &types.Stat{Path: "t", Mode: 0640, Uid: 3, Gid: 4, ModTime: 1600000000e9}
+				var A, Bl []flatEntry
+				A = append(A, flatEntry{&types.Stat{Path: "k", Mode: 0644, ModTime: 1600000007e9}, []byte("keep")})
+				Bl = append(Bl, flatEntry{A[0].St.CloneVT(), A[0].Content})
+				if tgt != 2 {
+					A = append(A, flatEntry{t.CloneVT(), []byte("tt")})
+				}
+				tb := t.CloneVT()
+				if tgt == 1 {
+					tb.ModTime += 5e9
+				}
+				Bl = append(Bl, flatEntry{tb, []byte("tt")})
+				switch old {
+				case 1:
+					u := t.CloneVT()
+					u.Path, u.Linkname = "u", "t"
+					A = append(A, flatEntry{u, []byte("tt")})
+				case 2:
+					A = append(A, flatEntry{&types.Stat{Path: "u", Mode: 0600, Uid: 9, ModTime: 1600000001e9}, []byte("own")})
+				}
+				for _, name := range []string{"u", "v"} {
+					u := tb.CloneVT()
+					u.Path, u.Linkname = name, "t"
+					if name == "u" {
+						switch field {
+						case 1:
+							u.Mode ^= 0111
+						case 2:
+							u.Uid += 2
+						case 3:
+							u.Gid += 2
+						case 4:
+							u.ModTime += 3e9
+						}
+					}
+					Bl = append(Bl, flatEntry{u, []byte("tt")})
+				}
+				cls := "directed-link-honest"
+				if field != 0 {
+					cls = "directed-link-meta-differs"
+				}
+				order := uint64(0)
+				if r.Bool() {
+					order = 1 + uint64(r.Intn(1000))
+				}
+				for _, mode := range []int{0, 1} {
+					c := cls
+					if mode == 1 {
+						if field%2 == 1 {
+							continue
+						}
+						c += "-merge"
+					}
+					if c05EmitCase(g, kind, 0, mode, order, A, Bl, c) {
+						n++
+					}
+				}
+			}
+		}
+	}
+	g.Note("directed_link_meta_cases", n)
+}
+
 func genC05(g *Gen) {
+	c05DirReplaced(g)
+	c05LinkMeta(g, 0x0501)
 	genRecvCases(g, 0x0501, g.Vol(700, 12000), true)
 }
